@@ -26,7 +26,7 @@ SPEC = {
     "shards": {"quick": 16, "thorough": 16},
     "min_counts": {"quick": {"evaluations": 1000, "yields_checked": 5000, "loops_checked": 1500, "removed_checked": 1000,
                              "untouched_checked": 1000, "nested_loops": 300, "later_passes": 500,
-                             "reused_populate_objects": 200, "snapshots_taken": 200, "uformat_destinations": 300}},
+                             "reused_populate_objects": 200, "snapshots_taken": 200, "uformat_destinations": 300, "subfibers_assigned_whole": 300, "free_uformat_sources": 100}},
     "assumptions": [
         "pre-existing explicit defaults of z that the body leaves alone may stay or be removed (only content is compared for them)",
         "bodies that break / raise are judged on WF and RC only",
@@ -42,7 +42,7 @@ def _act(seed, level, prefix, c, leaf):
     h = (seed * 1000003 + level * 7919 + hash_pt(prefix) * 31 + c * 131) % 1009
     if leaf:
         return ACTS[h % len(ACTS)], 1 + h % 4
-    return ("leave" if h % 4 == 0 else "recurse"), 0
+    return ("leave" if h % 4 == 0 else ("assign-fiber" if h % 4 == 1 else "recurse")), 0
 
 
 def hash_pt(p):
@@ -73,9 +73,11 @@ def generate(rng, tier, shard, nshards, mon):
     nrand = (4000 if tier == "quick" else 200000) // nshards
     for _ in range(nrand):
         depth = rng.choice([1, 1, 2, 2, 3])
-        default = rng.choice([0, 0, 7])
+        default = rng.choice([0, 0, 7, 0.5, -1.25])
         ext = [rng.randint(1, 5) for _ in range(depth)]
-        src = rng.choice(["eager", "eager", "tensor", "U-top", "U-mid", "lazy-and", "project"])
+        src = rng.choice(["eager", "eager", "tensor", "U-top", "U-mid", "lazy-and", "project", "U-free"])
+        if depth > 1 and src == "U-free":
+            src = "U-top"
         if depth == 1 and src == "U-mid":
             src = "U-top"
         if depth > 1 and src in ("lazy-and", "project"):
@@ -89,6 +91,8 @@ def generate(rng, tier, shard, nshards, mon):
                 # the same destination driven through several loops; the populate object may be built once and reused;
                 # a snapshot (Tensor.fromFiber on the owned root) may be taken between two loops
                 # declared formats of the destination's ranks (what stays behind must not depend on them)
+                # the body may take an offered sub-fiber over as a whole (z_n <<= a_n) instead of descending into it
+                "assign_sub": rng.random() < 0.5,
                 "zfmts": [rng.choice("CU") for _ in range(depth)] if rng.random() < 0.3 else None,
                 "passes": rng.choice([1, 1, 2, 3]), "hoist": rng.random() < 0.5, "snapshot": rng.random() < 0.5}
         yield case
@@ -136,8 +140,13 @@ def run_case(case, mon):
         z = zt.getRoot()
     # source
     at, fmts = None, ["C"] * depth
-    if src in ("eager", "lazy-and", "project"):
+    if src in ("eager", "lazy-and", "project", "U-free"):
         a = gen.fiber_from_spec(case["a"], d, shape=shape[0])
+        if src == "U-free":
+            # a free-standing source declared uncompressed through its own attributes
+            a.getRankAttrs().setFormat("U")
+            fmts[0] = "U"
+            mon.count("free_uformat_sources")
     else:
         if src == "U-top":
             fmts[0] = "U"
@@ -267,7 +276,16 @@ def run_case(case, mon):
                 else:
                     model.pop(pt, None)
             else:
-                if act == "recurse":
+                if act == "assign-fiber" and not (case.get("assign_sub") and level == depth - 2 and isinstance(a_val, Fiber)):
+                    act = "recurse"     # whole-fiber assignment only just above the leaves (deeper: C02's known stale rank entries)
+                if act == "assign-fiber":
+                    z_ref <<= a_val
+                    mon.count("subfibers_assigned_whole")
+                    for q in [q for q in model if q[:len(pt)] == pt]:
+                        del model[q]
+                    for q, v in content(a_val, d).items():
+                        model[pt + q] = v
+                elif act == "recurse":
                     sub_fmt = fmts[level + 1] if at is not None else "C"
                     loop(z_ref, a_val, level + 1, pt, None, sub_fmt)
         if seen != offered_c:
@@ -307,7 +325,7 @@ def run_case(case, mon):
             if hoisted:
                 mon.count("reused_populate_objects")
         try:
-            loop(z, source, 0, (), lazy, fmts[0] if at is not None else "C")
+            loop(z, source, 0, (), lazy, fmts[0] if (at is not None or src == "U-free") else "C")
         except _Stop:
             stopped = True
         except _Bad:
